@@ -281,7 +281,15 @@ func escapesOf(a ssa.Value, depth int, seen map[ssa.Value]bool) []ssa.Instructio
 				}
 				out = append(out, x)
 			case *ssa.MapUpdate:
+				if x.Map == v {
+					continue // v is the map being filled: an access, not an escape of v
+				}
 				root, _ := RootOf(x.Map)
+				if mm, ok := root.(*ssa.MakeMap); ok {
+					// put into a map built in this function: published when the map is
+					walk(mm)
+					continue
+				}
 				if b, ok := root.(*ssa.Alloc); ok && allocSource(b) == nil {
 					if b != a {
 						out = append(out, escapesOf(b, depth+1, seen)...)
@@ -310,6 +318,26 @@ func escapesOf(a ssa.Value, depth int, seen map[ssa.Value]bool) []ssa.Instructio
 				}
 				if CalleeIs(c, "sync", "", "NewCond") {
 					continue // only stores the Locker
+				}
+				// a private constructor that only links the object into another object it
+				// builds and returns: the object is as published as that result is
+				if callee := c.StaticCallee(); callee != nil && len(callee.Blocks) > 0 && depth < 3 && !c.IsInvoke() {
+					if _, isGo := x.(*ssa.Go); !isGo {
+						inner := false
+						for i, arg := range c.Args {
+							if arg == v && i < len(callee.Params) {
+								if len(escapesOf(callee.Params[i], depth+1, map[ssa.Value]bool{})) > 0 {
+									inner = true
+								}
+							}
+						}
+						if !inner {
+							if cv, ok := x.(ssa.Value); ok {
+								walk(cv)
+							}
+							continue
+						}
+					}
 				}
 				out = append(out, x)
 			case *ssa.Send:
